@@ -108,6 +108,13 @@ CHECKS.append(
              "replaced by loggers: exactly the documented reader runs for every version, followed by validation; the Header readers accept exactly well-formed versions whose type matches from 1.1 on "
              "and keep the document's version; writers emit the current version. Mapping fidelity and idempotence are checked on all 73 shipped fixtures and on down-converted random documents (bounded).",
      "note": _NOTE + "; thresholds below 1.0 are pinned from the property statement and fixtures (undocumented in the repository); legacy mappings and the 0.0 treeinfo reader are bounded only"})
+CHECKS.append(
+    {"id": "C08", "technique": "contract-based deductive verification: pyvc VCs/SMT on the real writers with sets/dicts of two symbolic elements under EVERY iteration/insertion order (nondeterministic order in the engine), AST clause on json.dump arguments, writer frame clauses + bounded hash-seed/permutation runs in separate interpreters",
+     "text": "Set iteration order is modelled as nondeterminism: composeinfo Variant.serialize (arches, child ids, path tables), Images.serialize (cell sorted by path), treeinfo Variant.serialize "
+             "(addons), TreeInfo.serialize ([tree]/[general] variants, platforms) are proved to emit the sorted list for every order of two-element collections with symbolic members; build_file "
+             "is shown to call json.dump with sort_keys/indent 4; writers are proved to leave the object unchanged (repeated dumps). Larger objects, PYTHONHASHSEED values and construction "
+             "permutations are compared byte for byte in separate interpreter processes (bounded).",
+     "note": _NOTE + "; bounded in collection SIZE (2) for the sortedness proofs; A1 (json sort_keys), A2 (ConfigParser emits in dict_type order)"})
 _PENDING = "check not built yet in this round (planned, DESIGN.md section 8); listed here only so that the manifest stays valid while the framework is being built"
 NOT_APPLICABLE = [{"property_id": "C%02d" % i, "reason": _PENDING} for i in range(1, 21) if "C%02d" % i not in [c["id"] for c in CHECKS]]
 for _e in ENGINES:
